@@ -202,6 +202,8 @@ func runFull(c Case) (out Outcome) {
 	}
 
 	nonces := 0
+	var lowV *Violation
+	lowAt := 0
 	for i, op := range c.Ops {
 		if m.tainted != "" {
 			break
@@ -301,7 +303,9 @@ func runFull(c Case) (out Outcome) {
 			}
 			judge := func() *Violation { return m.Data(i, op, wire, tok, em) }
 			if op.Van {
-				judge = func() *Violation { return m.Vanished(op, em, func() *Violation { return m.Data(i, op, wire, tok, em) }) }
+				judge = func() *Violation {
+					return m.Vanished(op, em, func() *Violation { return m.Data(i, op, wire, tok, em) })
+				}
 			}
 			if v := judge(); v != nil {
 				return fail(i, v)
@@ -309,8 +313,17 @@ func runFull(c Case) (out Outcome) {
 		}
 		lo, hi := m.PitBounds()
 		if n := pitTotal(); m.tainted == "" && (n < lo || n > hi) {
-			return fail(i, viol("C08", "after op #%d at +%dms the PITs of the %d threads hold %d entries; between %d and %d are possible (entries: %s)", i, m.now/ms, nth, n, lo, hi, m.pitString()))
+			v := viol("C08", "after op #%d at +%dms the PITs of the %d threads hold %d entries; between %d and %d are possible (entries: %s)", i, m.now/ms, nth, n, lo, hi, m.pitString())
+			if n > hi {
+				return fail(i, v)
+			}
+			if lowV == nil { // (as in the thread-level executor: go on, report at the end)
+				lowV, lowAt = v, i
+			}
 		}
+	}
+	if lowV != nil {
+		return fail(lowAt, lowV)
 	}
 	out.Tainted = m.tainted
 	if m.tainted != "" {
